@@ -36,13 +36,13 @@ fn gen_member_cats(t: &mut Tape, carrier: &[Instr], lab: &mut Labels) -> (Vec<St
 }
 
 /// Place repeat markers on a sequence of members. `active` carries in/out for permeating blocks.
-fn decorate_seq(t: &mut Tape, members: &mut [&mut Vec<Instr>], permeate_ok: bool, active: &mut bool, lab: &mut Labels) -> bool {
+fn decorate_seq(t: &mut Tape, members: &mut [&mut Vec<Instr>], permeate_ok: bool, heavy: bool, active: &mut bool, lab: &mut Labels) -> bool {
     let mut permeating = false;
     let n = members.len();
     for i in 0..n {
         let m = &mut *members[i];
         if !*active {
-            if t.chance(1, 3) {
+            if (heavy && i + 1 < n && t.chance(2, 3)) || (!heavy && t.chance(1, 3)) {
                 let (cats, parens) = gen_member_cats(t, m, lab);
                 let permeate = permeate_ok && t.chance(1, 3);
                 if permeate {
@@ -54,7 +54,7 @@ fn decorate_seq(t: &mut Tape, members: &mut [&mut Vec<Instr>], permeate_ok: bool
                 lab.add("repeat");
             }
         } else {
-            match t.weighted(&[5, 2, 2, 1]) {
+            match t.weighted(&[if heavy { 9 } else { 5 }, 2, 2, 1]) {
                 0 => {}
                 1 => {
                     m.insert(t.below(m.len() + 1), Instr::SkipRepeat);
@@ -79,21 +79,21 @@ fn decorate_seq(t: &mut Tape, members: &mut [&mut Vec<Instr>], permeate_ok: bool
     permeating
 }
 
-pub fn decorate_struct_repeats(t: &mut Tape, fields: &mut Vec<(Vec<Instr>, String)>, lab: &mut Labels) {
+pub fn decorate_struct_repeats(t: &mut Tape, fields: &mut Vec<(Vec<Instr>, String)>, heavy: bool, lab: &mut Labels) {
     if fields.len() < 2 || !t.chance(3, 4) {
         return;
     }
     let mut active = false;
     let mut refs: Vec<&mut Vec<Instr>> = fields.iter_mut().map(|f| &mut f.0).collect();
-    decorate_seq(t, &mut refs, false, &mut active, lab);
+    decorate_seq(t, &mut refs, false, heavy, &mut active, lab);
 }
 
-pub fn decorate_enum_repeats(t: &mut Tape, variants: &mut Vec<(Vec<Instr>, String, Shape, Vec<(Vec<Instr>, String)>)>, lab: &mut Labels) {
+pub fn decorate_enum_repeats(t: &mut Tape, variants: &mut Vec<(Vec<Instr>, String, Shape, Vec<(Vec<Instr>, String)>)>, heavy: bool, lab: &mut Labels) {
     // variant-level blocks
     if variants.len() >= 2 && t.chance(1, 3) {
         let mut active = false;
         let mut refs: Vec<&mut Vec<Instr>> = variants.iter_mut().map(|v| &mut v.0).collect();
-        decorate_seq(t, &mut refs, false, &mut active, lab);
+        decorate_seq(t, &mut refs, false, heavy, &mut active, lab);
         lab.add("repeat:variant-level");
     }
     // payload-field blocks, possibly permeating into following variants
@@ -105,7 +105,7 @@ pub fn decorate_enum_repeats(t: &mut Tape, variants: &mut Vec<(Vec<Instr>, Strin
                 active = false;
             }
             let mut refs: Vec<&mut Vec<Instr>> = v.3.iter_mut().map(|f| &mut f.0).collect();
-            let p = decorate_seq(t, &mut refs, true, &mut active, lab);
+            let p = decorate_seq(t, &mut refs, true, heavy, &mut active, lab);
             if p {
                 permeating = true;
             }
